@@ -574,8 +574,47 @@ fn sig_plus(a: &[u8; 96], d: &[u8; 96], negate: bool) -> Option<[u8; 96]> {
     }
 }
 
+/// The other checks decide "authentic" by comparing with the signature the code itself produces for
+/// the claimed vote; that is blind to a signing function that produces the SAME bytes for two
+/// different votes. Independent of it: one key's signatures over all distinct (kind, slot, block)
+/// votes of a small domain must be pairwise different (BLS signing is deterministic and injective
+/// on the message, so equal signatures mean equal signed bytes, i.e. a signature that can be
+/// moved between two votes).
+fn domain_separation(report: &Report) -> usize {
+    let e = make_epoch(&[1, 1, 1]);
+    let mut seen: Vec<((u32, u64, Option<u8>), [u8; 96])> = Vec::new();
+    let mut pairs = 0;
+    for kind in 0..5u32 {
+        for slot in [0u64, 1, 2, 255, 256, u64::MAX] {
+            for (hi, h) in [HA, HB].iter().enumerate() {
+                if kind >= 2 && hi > 0 {
+                    continue;
+                }
+                let m: MMsg = to_mirror(&ConsensusMessage::Vote(honest_vote(&e, kind, slot, h, 1)));
+                let MMsg::Vote(mv) = m else { continue };
+                let (_, _, _, sig, _) = mvote_fields(&mv);
+                let id = (kind, slot, if kind < 2 { Some(hi as u8) } else { None });
+                for (other, osig) in &seen {
+                    pairs += 1;
+                    if *osig == sig {
+                        report.violation(
+                            format!("C09:one-signature-fits-two-votes:kinds-{}-{}", other.0.min(kind), other.0.max(kind)),
+                            format!("the same key's signatures over the votes {other:?} and {id:?} (kind, slot, block) are byte-identical: a signature can be moved from one to the other"),
+                            json!({"oracle": "domain-separation", "vote_a": format!("{other:?}"), "vote_b": format!("{id:?}")}),
+                        );
+                    }
+                }
+                seen.push((id, sig));
+            }
+        }
+    }
+    pairs
+}
+
 pub fn run(tier: Tier) -> i32 {
     let report = Report::new("C09", tier, "exploration");
+    let separation_pairs = domain_separation(&report);
+    println!("  domain separation: {separation_pairs} pairs of distinct votes of one key");
     // mirror self-test
     let e0 = make_epoch(&[1, 1, 1]);
     for k in 0..5 {
